@@ -78,7 +78,7 @@ Proof. repeat split. Qed.
    [xreachable c0 c1 x]: x is reachable from the initial state (every node: term 0, empty
    log) by ANY finite sequence of events of RaftSys.xstep — on any node: Campaign, Propose,
    Tick, crash-and-restart from the persisted state, or Step of ANY message that was ever
-   sent to it (the network is a bag that only grows: loss, duplication, reordering, delay and
+   sent to it, snapshots (MsgSnap) included; log compaction changes no handler's behaviour (the network is a bag that only grows: loss, duplication, reordering, delay and
    partitions are schedules).  Any number of nodes; the voter configuration (c0, c1) is a
    fixed joint configuration, c1 = [] giving a plain majority configuration; it must not be
    empty.  No bound on anything.  Membership change is not covered at this level (see the
@@ -187,7 +187,7 @@ Theorem C15_committed_forever : forall c0 c1, (c0 <> [] \/ c1 <> []) ->
 Proof. exact committed_forever. Qed.
 Print Assumptions C15_committed_forever.
 
-(* the inductive invariant behind all of the above (Raft/RaftInv.v, 31 components) *)
+(* the inductive invariant behind all of the above (Raft/RaftInv.v, 32 components) *)
 Theorem C15_invariant : forall c0 c1, (c0 <> [] \/ c1 <> []) ->
   forall s, mreachable c0 c1 s -> Inv c0 c1 s.
 Proof. exact mreachable_inv. Qed.
